@@ -146,3 +146,21 @@ Proof. vm_compute. reflexivity. Qed.
 Theorem C13_grant_not_reached_forgets : forall s id s' post d, step s (EGrant id true) = (s', c_refused) ->
   grant s id <> (fst (grant s id), None) -> rlock s' = None /\ step s' (ECommit post d) = (s', c_refused).
 Proof. exact grant_not_reached_forgets. Qed.
+
+(* "the replica starts writing from exactly the primary's position" when it is BEHIND at the moment of the grant (by any
+   number of transactions): the stream brings it to the granted position, and it then holds the lock the primary
+   granted.  [grant_wait _ _ false] is the order of AcquireRemoteHaltLock after the repair (wait, then store). *)
+Theorem C13_grant_to_lagging_replica : forall s id, Inv s -> phalt s = None -> id <> 0 ->
+  snd (grant_wait s id false) = c_ok /\
+  rlock (fst (grant_wait s id false)) = Some (id, pos_of (plog s)) /\
+  phalt (fst (grant_wait s id false)) = Some (id, pos_of (plog s)) /\
+  rlog (fst (grant_wait s id false)) = plog s /\ plog (fst (grant_wait s id false)) = plog s.
+Proof. exact grant_wait_holds. Qed.
+(* the order before the repair (store, then wait), one transaction behind: the request succeeds, the primary is halted
+   for lock 61, and the replica holds nothing - the catch-up transaction cleared the lock it had just stored *)
+Example C13_lock_stored_before_the_wait_is_lost :
+  let '(s', c) := grant_wait (behind_state [5; 6; 7] 1) 61 true in
+  (c, id_of (phalt s'), id_of (rlock s'), fst (pos_of (rlog s'))) = (c_ok, 61, 0, 3) /\
+  behind_obs [5; 6; 7] 1 61 = [1; 3; 7; 3; 7; 61; 61].
+Proof. vm_compute. split; reflexivity. Qed.
+
